@@ -118,6 +118,16 @@ def execute(binary, path, env=None, timeout=120, hang_is_failure=False):
     return False, 'crash:signal' if m else 'crash:rc=%d' % p.returncode, err
 
 
+def detail(binary, path, env=None, limit=900):
+    """Human-readable reason for a failing input (oracle message or the head of the sanitizer report), printed under the VIOLATION line."""
+    ok, sig, err = execute(binary, path, env)
+    m = re.search(r'ORACLE-FAIL[^\n]*\n[^\n]*', err)
+    if m:
+        return m.group(0)[:limit]
+    m = re.search(r'(ERROR: \w+Sanitizer|runtime error)[^\n]*(\n\s+#\d[^\n]*){0,6}', err)
+    return (m.group(0) if m else err[-limit:])[:limit]
+
+
 def confirm_hangs(binary, art_dir, env=None, limit=3, secs=60):
     """libFuzzer's per-unit time limit in a 16-way loaded fork campaign is load noise -- unless the input really does not finish.  The
     smallest `limit` timeout artifacts are re-executed alone with a generous limit; returns {signature: [paths]} for those that still
